@@ -20,12 +20,31 @@ Theorem C17_one_ledger_history : forall steps s a,
 Proof. exact history_one_ledger. Qed.
 Print Assumptions C17_one_ledger_history.
 
-(* (2) a transaction that is not executed — failed consensus pre-check at any stage (also after
-   buyGas has debited the session), failed fee step, or duplicate — changes nothing *)
+(* (2) a transaction that is not executed — refused by Validate (wrong chain id / signature,
+   price below the minimum, negative value, gas above the simulation limit, nonce too low,
+   insufficient funds, gas below intrinsic, memo <> nonce; run by DeliverTx since /repo d276709),
+   failed consensus pre-check at any stage (also after buyGas has debited the session), failed
+   fee step, or duplicate — changes nothing *)
 Theorem C17_not_executed_unchanged : forall s e t o,
   (forall f u, (deliver_olvm s e t o).1 <> Executed f u) -> (deliver_olvm s e t o).2 = s.
 Proof. exact not_executed_unchanged. Qed.
 Print Assumptions C17_not_executed_unchanged.
+
+(* Validate is a gate of execution: what it refuses on the deliver state is not executed, and
+   whatever is executed has passed it (in particular: signed for this chain by the sender, priced
+   at or above the minimum fee — no free or foreign-chain execution by a block proposer) *)
+Theorem C17_invalid_not_executed : forall s e t o,
+  validate s (e_min_fee e) t = false ->
+  (deliver_olvm s e t o).2 = s /\
+  ((deliver_olvm s e t o).1 = NotExecuted \/ (deliver_olvm s e t o).1 = Duplicate).
+Proof. exact invalid_not_executed. Qed.
+Print Assumptions C17_invalid_not_executed.
+
+Theorem C17_executed_validated : forall s e t o f used s',
+  well_formed e t o -> deliver_olvm s e t o = (Executed f used, s') ->
+  validate s (e_min_fee e) t = true.
+Proof. exact executed_validated. Qed.
+Print Assumptions C17_executed_validated.
 
 (* (3) exact charge: an executed transaction (successful or VM-failed) reports 0 < gasUsed <= limit,
    credits the fee pool exactly gasUsed*price — for every oracle answer, refund counter and
@@ -65,7 +84,8 @@ Definition w_state : state :=
   {| bal := list_to_map [(0%N, 1000000000000000000); (1%N, 5000)] ;
      seqs := list_to_map [(0%N, 3); (1%N, 1)] ; pool := 0 |}.
 Definition w_env : env :=
-  {| e_block_gas := MaxInt64 ; e_sender_code := false ; e_created := 9%N ; e_dup := false |}.
+  {| e_block_gas := MaxInt64 ; e_sender_code := false ; e_created := 9%N ; e_dup := false ;
+     e_min_fee := 1000000000 |}.
 Definition w_call (nonce : Z) : otx :=
   {| t_from := 0%N ; t_to := Some 1%N ; t_value := 11 ; t_gas := 100000 ; t_price := 1000000000 ;
      t_nonce := nonce ; t_nz := 0 ; t_z := 0 ; t_chain_ok := true ; t_memo_ok := true |}.
@@ -120,25 +140,39 @@ Example C17_nonce_gap_rejected :
   deliver_olvm w_state w_env (w_call 5) w_plain = (NotExecuted, w_state).
 Proof. vm_compute. auto. Qed.
 
-(* (7) a transaction CheckTx accepts on a ledger AND that carries exactly the account's nonce
-   passes every consensus pre-check on the same ledger (block gas and the sender-is-EOA test
-   aside).  Without the exact-nonce hypothesis the statement is false: validateEthTx still
-   accepts a nonce ahead of the account's (mempool-side leniency), preCheck rejects it. *)
-Theorem C17_validated_executes : forall s e t o min_fee,
-  well_formed e t o -> validate s min_fee t = true -> nonce_gap s t = false ->
+(* (7) Validate (the same function in CheckTx and DeliverTx) accepting a transaction that carries
+   exactly the account's nonce implies that every consensus pre-check passes on that ledger (block
+   gas and the sender-is-EOA test aside).  Without the exact-nonce hypothesis the statement is
+   false: validateEthTx accepts a nonce ahead of the account's (mempool leniency), preCheck
+   rejects it. *)
+Theorem C17_validated_executes : forall s e t o,
+  well_formed e t o -> validate s (e_min_fee e) t = true -> nonce_gap s t = false ->
   e_dup e = false -> e_sender_code e = false -> gas_u64 t <= e_block_gas e ->
   exists f u, (deliver_olvm s e t o).1 = Executed f u.
 Proof. exact validated_executes. Qed.
 Print Assumptions C17_validated_executes.
 
 Example C17_validated_gap_not_executed :
-  validate w_state 1000000000 (w_call 5) = true /\ nonce_gap w_state (w_call 5) = true /\
+  validate w_state (e_min_fee w_env) (w_call 5) = true /\ nonce_gap w_state (w_call 5) = true /\
   (deliver_olvm w_state w_env (w_call 5) w_plain).1 = NotExecuted.
 Proof. vm_compute. auto. Qed.
 
-(* (8) native SEND on the same ledger: exact charge, failure is a no-op, conservation *)
-Theorem C17_send_exact : forall s t used s',
-  deliver_send s t used = (true, s') ->
+(* formerly executed by DeliverTx (C04's unvalidated deliver path), now refused with no effect:
+   wrong chain id, zero gas price *)
+Example C17_wrong_chain_and_free_rejected :
+  let wrong_chain := {| t_from := 0%N ; t_to := Some 1%N ; t_value := 11 ; t_gas := 100000 ;
+     t_price := 1000000000 ; t_nonce := 3 ; t_nz := 0 ; t_z := 0 ; t_chain_ok := false ; t_memo_ok := true |} in
+  let free := {| t_from := 0%N ; t_to := Some 1%N ; t_value := 11 ; t_gas := 100000 ;
+     t_price := 0 ; t_nonce := 3 ; t_nz := 0 ; t_z := 0 ; t_chain_ok := true ; t_memo_ok := true |} in
+  deliver_olvm w_state w_env wrong_chain w_plain = (NotExecuted, w_state) /\
+  deliver_olvm w_state w_env free w_plain = (NotExecuted, w_state).
+Proof. vm_compute. auto. Qed.
+
+(* (8) native SEND on the same ledger, behind sendTx.Validate: exact charge, failure (Validate
+   included) is a no-op, conservation *)
+Theorem C17_send_exact : forall s m t used s',
+  deliver_send s m t used = (true, s') ->
+  send_validate m t = true /\
   pool s' = pool s + n_price t * used /\
   (forall a, balance s' a = balance s a
      + (if decide (a = n_from t) then - (n_amount t + n_price t * used) else 0)
@@ -147,12 +181,12 @@ Theorem C17_send_exact : forall s t used s',
 Proof. exact send_exact. Qed.
 Print Assumptions C17_send_exact.
 
-Theorem C17_send_failed_unchanged : forall s t used,
-  (deliver_send s t used).1 = false -> (deliver_send s t used).2 = s.
+Theorem C17_send_failed_unchanged : forall s m t used,
+  (deliver_send s m t used).1 = false -> (deliver_send s m t used).2 = s.
 Proof. exact send_failed_unchanged. Qed.
 
-Theorem C17_send_conservation : forall s t used s' l,
-  deliver_send s t used = (true, s') -> NoDup l -> n_from t ∈ l -> n_to t ∈ l ->
+Theorem C17_send_conservation : forall s m t used s' l,
+  deliver_send s m t used = (true, s') -> NoDup l -> n_from t ∈ l -> n_to t ∈ l ->
   total_over s' l = total_over s l.
 Proof. exact send_conservation. Qed.
 Print Assumptions C17_send_conservation.
@@ -183,7 +217,7 @@ Example C17_nonvacuous_rejected :
   (deliver_olvm w_state w_env (w_call 4) w_plain).1 = NotExecuted /\                       (* nonce too high *)
   (deliver_olvm w_state w_env
      {| t_from := 0%N ; t_to := None ; t_value := 0 ; t_gas := 52999 ; t_price := 1 ; t_nonce := 3 ;
-        t_nz := 0 ; t_z := 0 ; t_chain_ok := true ; t_memo_ok := true |} w_plain).1 = NotExecuted /\   (* intrinsic, after buyGas *)
+        t_nz := 0 ; t_z := 0 ; t_chain_ok := true ; t_memo_ok := true |} w_plain).1 = NotExecuted /\   (* gas below intrinsic *)
   (deliver_olvm w_state w_env
      {| t_from := 1%N ; t_to := Some 0%N ; t_value := 0 ; t_gas := 21000 ; t_price := 1 ; t_nonce := 1 ;
         t_nz := 0 ; t_z := 0 ; t_chain_ok := true ; t_memo_ok := true |} w_plain).1 = NotExecuted.    (* cannot pay the gas *)
